@@ -43,7 +43,8 @@ ASSUMPTIONS = [
     "destructors of locals other than the scope.h guards do not affect the named events",
 ]
 DECIDED = ["a scope.h typestate", "b start loop + rollback on EH", "c stop loop", "d observer pairing", "e node level",
-           "f owners stop children; GraphValue::reset", "g executor", "h error identity"]
+           "f owners stop children; GraphValue::reset", "g executor", "h error identity",
+           'j switch_: the replaced branch is looked up before active_slot.reset() and stopped']
 NOT_DECIDED = ["user stop callbacks", "throwing observers (best-effort by design)"]
 
 HDR = r"graph_header\(.*\)"
